@@ -61,6 +61,7 @@ type Specs struct {
 	nonnilElem  map[string]bool
 	nonnilMapVal map[string]bool
 	nonnilResult map[string]bool
+	nonnilIface  map[string]bool
 	files     []string
 	errs      []string
 	w         *World
@@ -109,7 +110,7 @@ func (s *Specs) ifaceContract(it types.Type, method string) *Contract {
 func loadSpecs(w *World, trustedDir string) *Specs {
 	s := &Specs{contracts: map[string]*Contract{}, ifaces: map[string]*Contract{}, specFns: map[string]*SpecFn{}, pure: map[string]bool{},
 		mutators: map[string]bool{}, noInline: map[string]bool{}, nonnilField: map[string]bool{}, nonnilElem: map[string]bool{},
-		nonnilMapVal: map[string]bool{}, nonnilResult: map[string]bool{}, w: w, pkgByName: map[string]*types.Package{}, typeInv: map[string][]Clause{}}
+		nonnilMapVal: map[string]bool{}, nonnilResult: map[string]bool{}, nonnilIface: map[string]bool{}, w: w, pkgByName: map[string]*types.Package{}, typeInv: map[string][]Clause{}}
 	for _, p := range w.prog.AllPackages() {
 		name := p.Pkg.Name()
 		if old, ok := s.pkgByName[name]; ok {
@@ -273,6 +274,8 @@ func (s *Specs) parseFile(path string, trusted bool) {
 			s.nonnilElem[rest] = true
 		case "mapval-nonnil":
 			s.nonnilMapVal[rest] = true
+		case "iface-nonnil":
+			s.nonnilIface[rest] = true
 		case "result-nonnil":
 			s.nonnilResult[rest] = true
 		case "typeinv":
